@@ -1,6 +1,6 @@
 (* Proofs/LU.v — finite sums, triangular systems, and the Doolittle
    factorisation of Model/LU.v (R instance: exact arithmetic). *)
-From Coq Require Import ZArith List Arith Bool Reals Lra Lia.
+From Coq Require Import ZArith List Arith Bool Reals Lra Lia Classical_Prop.
 From SV Require Import Base.Num Base.Outcome Base.Mat Model.Subst Model.LU.
 Import ListNotations.
 Local Open Scope R_scope.
@@ -34,6 +34,10 @@ Definition is_perm_mat (n : nat) (P : mat R) : Prop := exists s, perm_on n s /\ 
 (* w is a non-trivial left null vector of the leading k x k block of A *)
 Definition left_null (k : nat) (A : mat R) (w : nat -> R) : Prop :=
   (exists i, (i < k)%nat /\ w i <> 0) /\ forall j, (j < k)%nat -> msum 0 k (fun i => w i * A i j) = 0.
+
+(* x is a non-trivial right null vector of the leading k x k block of A *)
+Definition right_null (k : nat) (A : mat R) (x : nat -> R) : Prop :=
+  (exists j, (j < k)%nat /\ x j <> 0) /\ forall i, (i < k)%nat -> msum 0 k (fun j => A i j * x j) = 0.
 
 (* ---------------------------------------------------------------------------
    Sums
@@ -291,6 +295,20 @@ Proof.
       rewrite msum_scal_r, Hw by lia. ring.
     - intros r _. rewrite <- msum_scal_l. apply msum_ext. intros c _. ring. }
   lra.
+Qed.
+
+(* (L U) z = 0 forces z = 0 *)
+Lemma tri_kernel k (L U : mat R) (z : vec R) :
+  unit_lower k L -> upper_tri k U -> (forall i, (i < k)%nat -> U i i <> 0) ->
+  (forall r, (r < k)%nat -> msum 0 k (fun c => msum 0 k (fun t => L r t * U t c) * z c) = 0) ->
+  forall c, (c < k)%nat -> z c = 0.
+Proof.
+  intros HL HU Hd Hz.
+  apply (upper_kernel k U z HU Hd).
+  apply (lower_kernel k L (fun t => msum 0 k (fun c => U t c * z c))).
+  - intros i j Hi Hj Hij. apply (HL i j Hi Hj); exact Hij.
+  - intros i Hi. destruct (HL i i Hi Hi) as [H1 _]. rewrite H1 by reflexivity. lra.
+  - intros i Hi. rewrite <- mprod_assoc_vec. apply Hz. exact Hi.
 Qed.
 
 (* ---------------------------------------------------------------------------
@@ -613,4 +631,133 @@ Proof.
   apply Hw0. apply (no_left_null k A); [|exact Hnull|exact Hi0].
   intro b. destruct (tri_solvable k L U HLk HUk Hdk b) as [x Hx]. exists x.
   intros r Hr. rewrite <- (Hx r Hr). apply msum_ext. intros c Hc. rewrite Hblock by lia. reflexivity.
+Qed.
+
+(* ---- a concrete successful run (non-vacuity of the hypotheses) ----------------- *)
+Lemma lu_2x2_ok (a : mat R) : a 0%nat 0%nat <> 0 -> exists L U, lu 2 2 a = Ok (L, U).
+Proof.
+  intro Ha. rewrite lu_square. cbn [for_range].
+  destruct (lu_step_ok 2 a 0 (mconst 0) (mconst 0)) as [lo1 [up1 [E1 I1]]];
+    [lia|apply LUInv_init|right; cbn [msum]; lra|].
+  change (@n0 R RNum) with 0. rewrite E1.
+  destruct (lu_step_ok 2 a 1 lo1 up1) as [lo2 [up2 [E2 _]]]; [lia|exact I1|left; lia|].
+  rewrite E2. exists lo2, up2. reflexivity.
+Qed.
+
+Definition ex_lu : mat R := mat_of_lists [[2; 1]; [4; 5]].
+Lemma ex_lu_ok : exists L U, lu 2 2 ex_lu = Ok (L, U).
+Proof. apply lu_2x2_ok. unfold ex_lu, mat_of_lists. cbn [nth]. lra. Qed.
+
+(* [[0,1],[1,0]]: its leading minor of order 1 vanishes *)
+Definition ex_swap : mat R := mat_of_lists [[0; 1]; [1; 0]].
+Lemma ex_swap_left_null : left_null 1 ex_swap (fun _ => 1).
+Proof.
+  split.
+  - exists O. split; [lia|lra].
+  - intros j Hj. assert (j = O) by lia. subst j. cbn [msum]. unfold ex_swap, mat_of_lists. cbn [nth Nat.add]. ring.
+Qed.
+
+(* the same for a right null vector of the leading block (e.g. a zero column inside it) *)
+Lemma c09_lu_zero_minor_right : forall (n k : nat) (A : mat R) (x : nat -> R),
+  (0 < k < n)%nat -> right_null k A x -> lu n n A = Err ESingularMatrix.
+Proof.
+  intros n k A x Hk [[j0 [Hj0 Hx0]] Hnull].
+  destruct (c09_lu_pivots n A) as [E|[L [U [E Hpiv]]]]; [exact E|exfalso].
+  pose proof (lu_ok_inv n A L U E) as Inv.
+  pose proof (LUInv_unit_lower _ _ _ _ Inv) as HL.
+  pose proof (LUInv_upper_tri _ _ _ _ Inv) as HU.
+  pose proof (LUInv_reconstruct _ _ _ _ Inv) as HR.
+  assert (HLk : unit_lower k L) by (intros i j Hi Hj; apply HL; lia).
+  assert (HUk : upper_tri k U) by (intros i j Hi Hj; apply HU; lia).
+  assert (Hdk : forall i, (i < k)%nat -> U i i <> 0) by (intros i Hi; apply Hpiv; lia).
+  apply Hx0. apply (tri_kernel k L U x HLk HUk Hdk); [|exact Hj0].
+  intros r Hr. rewrite <- (Hnull r Hr). apply msum_ext. intros c Hc. f_equal.
+  rewrite <- (HR r c) by lia. unfold mprod. symmetry.
+  apply msum_trunc; [lia|]. intros t Ht. destruct (HL r t) as [_ Hz]; try lia. rewrite Hz by lia. ring.
+Qed.
+
+(* ---------------------------------------------------------------------------
+   The converse: if the factorisation is refused, a leading block is singular
+   --------------------------------------------------------------------------- *)
+Lemma LUInv_restrict n k a i lo up : (k <= n)%nat -> LUInv n a i lo up -> LUInv k a i lo up.
+Proof.
+  intros Hk [I1 I2 I3 I4 I5 I6].
+  constructor; intros; [apply I1|apply I2|apply I3|apply I4|apply I5|apply I6]; lia.
+Qed.
+
+(* a zero pivot at step i (with a multiplier still to compute) exhibits a left null vector
+   of the leading (i+1) x (i+1) block: w^T = e_i^T L^-1 *)
+Lemma lu_zero_pivot_null n a i lo up :
+  (S i < n)%nat -> LUInv n a i lo up ->
+  a i i - msum 0 i (fun j => lo i j * up j i) = 0 ->
+  exists w, left_null (S i) a w.
+Proof.
+  intros Hi Hinv Hz.
+  set (k := S i).
+  assert (Hinvk : LUInv k a i lo up) by (apply (LUInv_restrict n k); [unfold k; lia|exact Hinv]).
+  destruct (lu_inner_step_ok k a i lo up) as [E [lo1 [_ Hinv1]]]; [unfold k; lia|exact Hinvk|left; unfold k; lia|].
+  cbv zeta in E, Hinv1.
+  set (up1 := lu_upper_row k i a lo up) in *.
+  fold k in Hinv1.
+  pose proof (LUInv_unit_lower _ _ _ _ Hinv1) as HL.
+  pose proof (LUInv_upper_tri _ _ _ _ Hinv1) as HU.
+  pose proof (LUInv_reconstruct _ _ _ _ Hinv1) as HR.
+  destruct (back_ok (mtranspose lo1) k (fun t => if (t =? i)%nat then 1 else 0) (vconst 0)) as [w Hw]; [unfold k; lia|].
+  assert (Hsol : forall t, (t < k)%nat ->
+            msum 0 k (fun j => lo1 j t * w j) = if (t =? i)%nat then 1 else 0).
+  { intros t Ht.
+    apply (back_solves (mtranspose lo1) k (fun t => if (t =? i)%nat then 1 else 0) (vconst 0) w Hw); [| |exact Ht].
+    - intros r c Hr Hc Hcr. unfold mtranspose. apply (HL c r Hc Hr). exact Hcr.
+    - intros r Hr. unfold mtranspose. destruct (HL r r Hr Hr) as [H1 _]. rewrite H1 by reflexivity. lra. }
+  exists w. split.
+  - exists i. split; [lia|].
+    pose proof (Hsol i) as Hi1. rewrite Nat.eqb_refl in Hi1.
+    rewrite (msum_delta 0 k _ i) in Hi1; [| unfold k; lia |].
+    + destruct (HL i i) as [H1 _]; try (unfold k; lia). rewrite H1 in Hi1 by reflexivity.
+      intro Hw0. rewrite Hw0 in Hi1. specialize (Hi1 ltac:(unfold k; lia)). lra.
+    + intros t Ht Hne. destruct (HL t i) as [_ H0]; try (unfold k in *; lia).
+      rewrite H0 by (unfold k in *; lia). ring.
+  - intros c Hc. fold k in Hc |- *.
+    rewrite (msum_ext 0 k _ (fun r => msum 0 k (fun t => w r * lo1 r t * up1 t c))).
+    2:{ intros r Hr. rewrite <- (HR r c) by lia. unfold mprod. rewrite <- msum_scal_l.
+        apply msum_ext. intros t _. ring. }
+    rewrite msum_exchange.
+    rewrite (msum_ext 0 k _ (fun t => (if (t =? i)%nat then 1 else 0) * up1 t c)).
+    2:{ intros t Ht. rewrite <- (Hsol t) by lia. rewrite <- msum_scal_r.
+        apply msum_ext. intros r _. ring. }
+    rewrite (msum_delta 0 k _ i); [| unfold k; lia |].
+    + rewrite Nat.eqb_refl, Rmult_1_l.
+      destruct (Nat.eq_dec c i) as [->|Hne].
+      * rewrite E. exact Hz.
+      * apply HU; unfold k in *; lia.
+    + intros t Ht Hne. apply Nat.eqb_neq in Hne. rewrite Hne. ring.
+Qed.
+
+Lemma c09_lu_ok_of_minors : forall (n : nat) (A : mat R),
+  (forall k w, (0 < k < n)%nat -> ~ left_null k A w) -> exists L U, lu n n A = Ok (L, U).
+Proof.
+  intros n A Hreg. rewrite lu_square.
+  pose proof (for_range_inv (fun i acc => exists lo up, acc = Ok (lo, up) /\ LUInv n A i lo up)
+                0 n (lu_step n A) (Ok (mconst n0, mconst n0))) as H.
+  cbn [Nat.add] in H. destruct H as [lo [up [E _]]].
+  - exists (mconst 0), (mconst 0). split; [reflexivity|apply LUInv_init].
+  - intros i acc Hi [lo [up [-> Hinv]]].
+    destruct (lu_step_ok n A i lo up) as [lo' [up' [E Hinv']]]; [lia|exact Hinv| |].
+    + destruct (le_lt_dec (n - i) 1) as [H1|H1]; [left; exact H1|right].
+      intro Hz. destruct (lu_zero_pivot_null n A i lo up) as [w Hw]; [lia|exact Hinv|exact Hz|].
+      apply (Hreg (S i) w); [lia|exact Hw].
+    + exists lo', up'. split; [exact E|exact Hinv'].
+  - exists lo, up. exact E.
+Qed.
+
+(* lu is refused exactly when some leading principal block of order < n is singular *)
+Lemma c09_lu_err_iff_minor : forall (n : nat) (A : mat R),
+  lu n n A = Err ESingularMatrix <-> exists k w, (0 < k < n)%nat /\ left_null k A w.
+Proof.
+  intros n A. split.
+  - intro HE. apply Classical_Prop.NNPP. intro Hno.
+    destruct (c09_lu_ok_of_minors n A) as [L [U E]].
+    + intros k w Hk Hw. apply Hno. exists k, w. split; assumption.
+    + rewrite E in HE. discriminate.
+  - intros [k [w [Hk Hw]]]. exact (c09_lu_zero_minor n k A w Hk Hw).
 Qed.
